@@ -36,6 +36,13 @@ Theorem real_at_most_one_attach r my tgt p chunks :
   (b_phase (recv r my tgt p chunks) <> RP PhBanana -> b_attached (recv r my tgt p chunks) = []).
 Proof. unfold real_recv_all. apply bytes_at_most_one_attach. Qed.
 
+(* a listener registers a key only on a connection whose GET named this very Tub (plaintext_server_requested: the translated
+   statements of handlePLAINTEXTServer up to the lookup; server_lookup: the session model's listener lookup) *)
+Theorem real_listener_attach_needs_get my tgt p chunks :
+  b_attached (recv Server my tgt p chunks) <> [] ->
+  exists hdr, plaintext_server_requested real_decode hdr = Ok my /\ server_lookup my my = Ok tt /\ my <> [].
+Proof. unfold real_recv_all. apply bytes_listener_attach_needs_get. Qed.
+
 End RealProofs.
 
 (* ------------------------------------------------------------------ non-vacuity, on the real checks *)
@@ -86,3 +93,15 @@ Proof. vm_compute. split; reflexivity. Qed.
 Example exb_client_wrong_tub :
   b_attached (exb_recv [97; 97] Client [97; 97] [98; 98] {| leaf := Some 3; extras := [] |} [exb_101; exb_hello_cc; exb_decision]) = [].
 Proof. vm_compute. reflexivity. Qed.
+
+(* the plaintext guard is not opaque: the GET for "zz" yields the id "zz", on which the session model's lookup succeeds at the
+   listener "zz"; the GET for "yy" is refused there, by the guard and by server_lookup alike; after the first the object has left
+   the PLAINTEXT phase, after the second it has not *)
+Example exb_guard_is_lookup :
+  plaintext_server_requested real_decode (firstn 37 exb_get) = Ok [122; 122] /\
+  plaintext_server_guard real_decode [122; 122] (fun _ => false) (firstn 37 exb_get) = Ok tt /\ server_lookup [122; 122] [122; 122] = Ok tt /\
+  plaintext_server_requested real_decode (firstn 19 exb_get_other) = Ok [121; 121] /\
+  plaintext_server_guard real_decode [122; 122] (fun _ => false) (firstn 19 exb_get_other) = Exc "NegotiationError" /\
+  server_lookup [121; 121] [122; 122] = Exc "NegotiationError" /\
+  b_phase (exb_recv [122; 122] Server [122; 122] [] {| leaf := Some 2; extras := [] |} [exb_get]) = RP PhEncrypted.
+Proof. vm_compute. repeat split; reflexivity. Qed.
